@@ -136,4 +136,45 @@ def replaceFirstBytes (pat rep : List Nat) : List Nat → List Nat
 def atoiRewrite (s : List Nat) : List Nat :=
   replaceFirstBytes [0x2A, 0x31, 0x30, 0x5E] [0x65] (replaceFirstBytes [0x2A, 0x5E] [0x65] s)
 
+/-! ### one text VALUE over a history
+
+Every observable of a `*String` is computed from its current `value` bytes; the only method that assigns to
+`s.value` is `strExecAtoi` (转换数值).  A history is a list of steps applied to the SAME value. -/
+
+/-- the steps of a history: 长度, 字符组, 取样 i j, the text itself, 转换数值 -/
+inductive Step where
+  | len
+  | chars
+  | slice (i j : Int)
+  | text
+  | toNumber
+  deriving Repr, DecidableEq
+
+/-- what a step shows (bytes).  `converted`: 转换数值 ran — its numeric result (`strconv.ParseFloat`) is not modelled,
+its effect on the receiver is (see `step`) -/
+inductive Obs where
+  | len (n : Nat)
+  | chars (cs : List (List Nat))
+  | slice (r : Except SliceErr (List Nat))
+  | text (s : List Nat)
+  | converted
+
+/-- one step on the value whose bytes are `s`: (what it shows, the bytes of the value afterwards) -/
+def step (s : List Nat) : Step → Obs × List Nat
+  | .len => (.len (length s), s)
+  | .chars => (.chars (chars s), s)
+  | .slice i j => (.slice (slice s i j), s)
+  | .text => (.text s, s)
+  | .toNumber => (.converted, atoiRewrite s)
+
+/-- the bytes of the value after a history -/
+def stateAfter : List Step → List Nat → List Nat
+  | [], s => s
+  | st :: r, s => stateAfter r (step s st).2
+
+/-- the observations of a history, in order -/
+def runHistory : List Step → List Nat → List Obs
+  | [], _ => []
+  | st :: r, s => (step s st).1 :: runHistory r (step s st).2
+
 end ZnVerif.Model.TextOps
